@@ -146,7 +146,13 @@ var errKinds = []errKind{
 	}},
 	{Name: "custom", make: wrap(ErrCustom), match: ErrCustom},
 	{Name: "unregistered", make: func(msg string) error { return errors.New("plain failure " + msg) }},
+	// a package-level sentinel of no registered kind: the in-memory transport hands the
+	// error value over and an Internal gRPC server sends it fully encoded, so identity
+	// survives there; the client-facing transports only keep the text.
+	{Name: "unregistered.sentinel", make: func(msg string) error { return errors.Wrap(ErrPlain, "plain failure "+msg) }},
 }
+
+var ErrPlain = errors.New("c14 unregistered sentinel")
 
 func kindByName(n string) errKind {
 	for _, k := range errKinds {
